@@ -766,3 +766,110 @@ M('C06', 'refund-auth-for-args', GAS_, """        Self::gas_collector(&env).requ
         token::Client::new(&env, &token.address).transfer(
             &env.current_contract_address(),
             &receiver,""", 'C06.R1')
+M('C03', 'rf-gwauth1-order-not-strict', AUTH, '            if previous_signer >= signer {', '            if previous_signer > signer {', 'C03.R1', base='gwauth-1')
+M('C03', 'rf-gwauth1-zero-weight-ok', AUTH, '            if weight == 0 {\n                return Err(ContractError::InvalidWeight);\n            }\n', '', 'C03.R1', base='gwauth-1')
+M('C03', 'rf-gwauth1-bad-order-skips-element', AUTH, '            if previous_signer >= signer {\n                return Err(ContractError::InvalidSigners);', '            if previous_signer >= signer {\n                return Ok(());', 'C03.R1', base='gwauth-1')
+M('C03', 'rf-gwauth1-prev-not-updated', AUTH, '            previous_signer = signer;\n            total_weight = total_weight', '            total_weight = total_weight', 'C03.R1', base='gwauth-1')
+M('C03', 'rf-gwauth1-threshold-above-total', AUTH, '    if threshold == 0 || total_weight < threshold {', '    if threshold == 0 {', 'C03.R1', base='gwauth-1')
+M('C01', 'rf-gwauth1-unsigned-counted', AUTH, '        let ProofSignature::Signed(signature) = proof_signer.signature else {\n            continue;\n        };', '        let signature = match proof_signer.signature { ProofSignature::Signed(s) => s, ProofSignature::Unsigned => BytesN::from_array(env, &[0; 64]) };', 'C01', base='gwauth-1')
+
+# ---------------- loop <-> iterator-consumer rewrites (closure spliced into the caller by analysis/iterinline.py) ----------------
+_SIGLOOP = """    for ProofSigner {
+        signer: WeightedSigner {
+            signer: public_key,
+            weight,
+        },
+        signature,
+    } in proof.signers.iter()
+    {
+        if let ProofSignature::Signed(signature) = signature {
+            env.crypto()
+                .ed25519_verify(&public_key, msg_hash.to_bytes().as_ref(), &signature);
+
+            total_weight = total_weight.checked_add(weight).unwrap();
+
+            if total_weight >= proof.threshold {
+                return true;
+            }
+        }
+    }
+
+    false
+}"""
+_SIGANY = """    let threshold = proof.threshold;
+    proof.signers.iter().any(|ProofSigner { signer: WeightedSigner { signer: public_key, weight }, signature }| {
+        if let ProofSignature::Signed(signature) = signature {
+            env.crypto()
+                .ed25519_verify(&public_key, msg_hash.to_bytes().as_ref(), &signature);
+
+            total_weight = total_weight.checked_add(weight).unwrap();
+
+            if total_weight >= threshold {
+                return true;
+            }
+        }
+        false
+    })
+}"""
+for _p in ('C01', 'C08', 'C03'):
+    M(_p, 'refactor3-sigloop-any-' + _p.lower(), AUTH, _SIGLOOP, _SIGANY, equiv=True)
+M('C01', 'sigloop-any-weight-before-verify', AUTH, _SIGLOOP, _SIGANY.replace("""            env.crypto()
+                .ed25519_verify(&public_key, msg_hash.to_bytes().as_ref(), &signature);
+
+            total_weight = total_weight.checked_add(weight).unwrap();
+""", """            total_weight = total_weight.checked_add(weight).unwrap();
+            if total_weight >= threshold {
+                return true;
+            }
+            env.crypto()
+                .ed25519_verify(&public_key, msg_hash.to_bytes().as_ref(), &signature);
+"""), 'C01')
+M('C01', 'sigloop-any-unsigned-ends-true', AUTH, _SIGLOOP, _SIGANY.replace("        false\n    })", "        true\n    })"), 'C01')
+_CTORLOOP = """    for signers in initial_signers.into_iter() {
+        rotate_signers(&env, &signers, false)?;
+    }
+
+    Ok(())"""
+for _p in ('C03', 'C08', 'C09', 'C01'):
+    M(_p, 'refactor3-ctor-try_for_each-' + _p.lower(), AUTH, _CTORLOOP, """    initial_signers
+        .into_iter()
+        .try_for_each(|signers| rotate_signers(&env, &signers, false))""", equiv=True)
+M('C03', 'ctor-for_each-swallows-errors', AUTH, _CTORLOOP, """    initial_signers
+        .into_iter()
+        .for_each(|signers| { let _ = rotate_signers(&env, &signers, false); });
+
+    Ok(())""", 'C03')
+_VSLOOP = """    let mut total_weight = 0u128;
+
+    for signer in weighted_signers.signers.iter() {
+        ensure!(
+            previous_signer < signer.signer,
+            ContractError::InvalidSigners
+        );
+
+        ensure!(signer.weight != 0, ContractError::InvalidWeight);
+
+        previous_signer = signer.signer;
+        total_weight = total_weight
+            .checked_add(signer.weight)
+            .ok_or(ContractError::WeightOverflow)?;
+    }
+"""
+_VSFOLD = """    let total_weight = weighted_signers.signers.iter().try_fold(0u128, |total_weight, signer| {
+        ensure!(
+            previous_signer < signer.signer,
+            ContractError::InvalidSigners
+        );
+
+        ensure!(signer.weight != 0, ContractError::InvalidWeight);
+
+        previous_signer = signer.signer;
+        total_weight
+            .checked_add(signer.weight)
+            .ok_or(ContractError::WeightOverflow)
+    })?;
+"""
+M('C03', 'refactor3-validate-signers-try_fold', AUTH, _VSLOOP, _VSFOLD, equiv=True)
+M('C03', 'validate-signers-try_fold-wrapping', AUTH, _VSLOOP, _VSFOLD.replace("""        total_weight
+            .checked_add(signer.weight)
+            .ok_or(ContractError::WeightOverflow)""", """        Ok(total_weight.wrapping_add(signer.weight))"""), 'C03.R1')
